@@ -175,6 +175,17 @@ def run_file(case, res):
             else:
                 res["counters"]["runs-with-a-refused-seek"] = 1
             out_ = run.stdout
+        elif not warm and case["fs"] == "ext4" and case["segs"] and len(case["segs"]) > 33 and case.get("seed", 0) % 2 == 0:
+            # the extent query is answered once and refused from then on (EOPNOTSUPP for the second and later pages: a filter, a stacked
+            # filesystem): part of a map is no map
+            run = core.run_supervised(sb, [PROBE_BIN["probe_fs"], "map", path], {"log_mode": "none", "rules": [{"id": "q", "sys": "ioctl", "iocmd": 0xC020660B, "under": sb.root + "/", "action": "fault", "errno": 95,
+                                                                                                                "from": 2 + case["seed"] % 2}]})
+            if run.verdict != "exited" or run.status != 0:
+                res["inconc"].append("probe-failed")
+                return
+            if run.rule("q")["applied"]:
+                res["counters"]["runs-with-later-extent-queries-refused"] = 1
+            out_ = run.stdout
         else:
             r = subprocess.run([PROBE_BIN["probe_fs"], "map", path] + warm, capture_output=True, timeout=120)
             if r.returncode != 0:
@@ -186,7 +197,9 @@ def run_file(case, res):
         written = case["segs"] if case["segs"] is not None else [[0, case["size"]]]
         tag = "fs=%s size=%d segments=%d synced=%s first=%s" % (case["fs"], case["size"], len(written), case["sync"], written[:2])
         maps = 0
-        if isinstance(j["extents"], dict) or isinstance(j["merged"], dict):
+        if (isinstance(j["extents"], dict) or isinstance(j["merged"], dict)) and res["counters"].get("runs-with-later-extent-queries-refused"):
+            res["counters"]["refused-extent-query-reported-as-error"] = 1
+        elif isinstance(j["extents"], dict) or isinstance(j["merged"], dict):
             res["viol"].append({"sig": "map_extents:error", "what": "map_extents/merge_extents returned an error: %s %s; %s" % (j["extents"], j["merged"], tag)})
         else:
             if case["fs"] == "tmpfs" and j["extents"] is not None:
